@@ -5,6 +5,7 @@ import (
 	"go/token"
 	"go/types"
 	"sort"
+	"strings"
 
 	"golang.org/x/tools/go/ssa"
 
@@ -32,6 +33,7 @@ func runC19(c *core.Ctx, r *core.Reporter) {
 	// the FuncInfo completeness rule is shared with C08.patch
 	c19funcdoc(c, r)
 	c19pinned(c, r)
+	c19value(c, r)
 }
 
 // c19pinned: what is saved does not depend on how the session happens to print.
@@ -183,7 +185,8 @@ func c19total(c *core.Ctx, r *core.Reporter) {
 	r.Rule(rule, "in every LoadForm method, an element that is tested for the LoadFormer interface and fails the test (and is not nil) leads to a raise (print-not-readable): it is never embedded raw or skipped", 3)
 	lf := lenflow.New(c)
 	for _, fn := range c.ModuleFuncs() {
-		if fn.Name() != "LoadForm" || fn.Signature.Recv() == nil {
+		// LoadForm methods and the helpers of the load form writers (dataLoadForm, InstanceLoadForm, ObjectLoadForm)
+		if !strings.HasSuffix(fn.Name(), "LoadForm") {
 			continue
 		}
 		n := 0
